@@ -210,6 +210,14 @@ func YAMLUnmarshalerWithValidator(validator protoyaml.Validator) YAMLUnmarshaler
 	}
 }
 
+// YAMLUnmarshalerWithDiscardUnknown says to skip unknown fields (i.e. extensions that the resolver
+// does not know yet) instead of returning an error.
+func YAMLUnmarshalerWithDiscardUnknown() YAMLUnmarshalerOption {
+	return func(yamlUnmarshaler *yamlUnmarshaler) {
+		yamlUnmarshaler.discardUnknown = true
+	}
+}
+
 // NewYAMLUnmarshaler returns a new Unmarshaler for yaml.
 //
 // If the resolver is nil, EmptyResolver will be used.
